@@ -29,7 +29,8 @@ CFG = dict(
                         "drained_to_at_most_five_pages": 300, "block_released_by_another_thread": 100,
                         "freed_chunk_reused": 500,
                         "second_single_threaded_instance_alive_during_threaded_phase": 50,
-                        "request_above_2GiB_forwarded_to_parent": 50}},
+                        "request_above_2GiB_forwarded_to_parent": 50,
+                        "more_than_65536_full_pages_in_one_class": 1}},
 )
 
 META = dict(
